@@ -48,7 +48,8 @@ def writeAll (d : D) : List String → D × List String
     | some s' => writeAll (settle { d with s := s' }) rest
     | none => (d, m :: rest)
 
-def bad (why : String) : String := "bad:C18,C20:C18: " ++ why ++ "; C20: a call blocks for ever (" ++ why ++ ")"
+def bad (why : String) : String :=
+  "bad:C18,C20,C19:C18: " ++ why ++ "; C20: a call blocks for ever (" ++ why ++ "); C19: the log routes stop answering (" ++ why ++ ")"
 
 def holdup (d : D) : String :=
   if d.paused.isEmpty then "a follower that went away holds up the process it followed"
